@@ -1618,7 +1618,7 @@ fn result_canon(r: &query_router::Result<QueryResult>) -> String {
                 .join(" ")
         ),
         Ok(QueryResult::Edges(es)) => format!("Edges[{}]", es.iter().map(|e| format!("#{}:{}->{}:{}", e.id, e.from, e.to, e.label)).collect::<Vec<_>>().join(" ")),
-        Ok(QueryResult::Similar(v)) => format!("Similar[{}]", v.iter().map(|x| format!("{}@{:?}", x.key, x.score)).collect::<Vec<_>>().join(" ")),
+        Ok(QueryResult::Similar(v)) => format!("Similar[{}]", { let mut t: Vec<(String, f32)> = v.iter().map(|x| (x.key.clone(), x.score)).collect(); let mut i = 0; while i < t.len() { let mut j = i; while j < t.len() && t[j].1.to_bits() == t[i].1.to_bits() { j += 1; } t[i..j].sort_by(|a, b| a.0.cmp(&b.0)); i = j; } t.iter().map(|(k, sc)| format!("{k}@{sc:?}")).collect::<Vec<_>>().join(" ") }),
         Ok(QueryResult::TableList(v)) => {
             let mut v = v.clone();
             v.sort();
@@ -2086,7 +2086,7 @@ fn build_cases() -> Vec<Case> {
                             Ok(q) => q,
                             Err(_) => return "Err".into(),
                         };
-                        ok_or_err(r.vector().search_similar_with_metric(&q, lim.unwrap_or(10), m), |v| format!("Similar[{}]", v.iter().map(|x| format!("{}@{:?}", x.key, x.score)).collect::<Vec<_>>().join(" ")))
+                        ok_or_err(r.vector().search_similar_with_metric(&q, lim.unwrap_or(10), m), |v| format!("Similar[{}]", { let mut t: Vec<(String, f32)> = v.iter().map(|x| (x.key.clone(), x.score)).collect(); let mut i = 0; while i < t.len() { let mut j = i; while j < t.len() && t[j].1.to_bits() == t[i].1.to_bits() { j += 1; } t[i..j].sort_by(|a, b| a.0.cmp(&b.0)); i = j; } t.iter().map(|(k, sc)| format!("{k}@{sc:?}")).collect::<Vec<_>>().join(" ") }))
                     }),
                 });
             }
@@ -2102,7 +2102,7 @@ fn build_cases() -> Vec<Case> {
                 text: format!("SIMILAR [{}] LIMIT 3{mt}", v.iter().map(Lit::text).collect::<Vec<_>>().join(", ")),
                 tags: if vt.is_empty() { vec![] } else { vec![vt] },
                 direct_desc: format!("vector.search_similar_with_metric(&{fv:?}, 3, {m:?})"),
-                direct: Box::new(move |r| ok_or_err(r.vector().search_similar_with_metric(&fv1, 3, m), |v| format!("Similar[{}]", v.iter().map(|x| format!("{}@{:?}", x.key, x.score)).collect::<Vec<_>>().join(" ")))),
+                direct: Box::new(move |r| ok_or_err(r.vector().search_similar_with_metric(&fv1, 3, m), |v| format!("Similar[{}]", { let mut t: Vec<(String, f32)> = v.iter().map(|x| (x.key.clone(), x.score)).collect(); let mut i = 0; while i < t.len() { let mut j = i; while j < t.len() && t[j].1.to_bits() == t[i].1.to_bits() { j += 1; } t[i..j].sort_by(|a, b| a.0.cmp(&b.0)); i = j; } t.iter().map(|(k, sc)| format!("{k}@{sc:?}")).collect::<Vec<_>>().join(" ") }))),
             });
         }
     }
